@@ -12,7 +12,48 @@ def has(text, needle):
     return norm(needle) in norm(text)
 
 
+# values of the unchanged source: used for the constants that can no longer be extracted when the
+# source lost its expected shape, so that the Lean side still builds (against the model of the
+# unchanged code) and the correspondence / failing-input search can run.  The tie is reported.
+EXPECTED = [
+    ('initParams', 'List String', lean_list(['path', 'environment_path', 'load_unsafe_extensions', 'sys_path',
+                                              'added_sys_path', 'smart_sys_path'])),
+    ('initAttrs', 'List String', lean_list(['_path', '_environment_path', '_sys_path', '_smart_sys_path',
+                                             '_load_unsafe_extensions', '_django', 'added_sys_path'])),
+    ('pathAlwaysAbsolute', 'Bool', 'false'),
+    ('envPathStr', 'Bool', 'false'),
+    ('savePopped', 'List String', lean_list(['_environment', '_django'])),
+    ('serializerVersion', 'Int', '1'),
+    ('defaultAddParentPaths', 'Bool', 'true'),
+    ('defaultAddInitPaths', 'Bool', 'false'),
+    ('composeOrder', 'List String', lean_list(['prefixed', 'sys_path', 'suffixed'])),
+    ('traversedReversed', 'Bool', 'true'),
+]
+
+
 def generate(repo, g):
+    import os
+    from translator.extract import GEN_DIR, write_if_changed
+    defined = set()
+    orig_define = g.define
+
+    def define(name, typ, value, source):
+        defined.add(name)
+        orig_define(name, typ, value, source)
+    g.define = define
+    try:
+        _generate(repo, g)
+    except TieBroken:
+        for name, typ, value in EXPECTED:
+            if name not in defined:
+                orig_define(name, typ, value, 'FALLBACK (source shape not recognised): value of the unchanged code')
+        write_if_changed(os.path.join(GEN_DIR, g.pid + '.lean'), g.text())
+        raise
+    finally:
+        g.define = orig_define
+
+
+def _generate(repo, g):
     src = Src(repo, 'jedi/api/project.py')
     init = src.find('Project.__init__')
     save = src.find('Project.save')
